@@ -51,6 +51,26 @@ W2_COMPONENTS = {
     "scripted": ["the sending side: a harness peer that encodes the wire format by hand (no sts client code)"],
 }
 
+RULE_W4Q = ("each evaluation drives the real queue.Tagged with a pusher task and a popper task on the fake clock; the scenario is a generated list of pushes "
+            "(1-6 groups over 1-4 tags with priorities incl. ties, all four orders, chunk sizes, last-file delays, placeholders, late/older files, equal times), pops and sleeps; "
+            "the tape interleaves the two tasks call by call and lets time pass. Every Pop is judged against a reference model (ready groups, priority classes, rotation, order, tiling, predecessor). "
+            "distinct = distinct decision-log hash; non-trivial = >15 steps")
+RULE_W4L = ("each evaluation drives the real log.FileIO (receive and send logs) with 1-4 caller tasks on the fake clock: generated writes, look-ups with windows "
+            "(same day, across midnight, across months, reversed, empty), replays and sleeps of seconds to a month, names that are prefixes/substrings of each other or contain ':', "
+            "repeated names with different hashes; the tape interleaves the tasks, the logger goroutine's file rotation (open seam) and time. Each answer is judged against a record-list model; "
+            "histories of <=40 operations are also checked for linearizability with porcupine. distinct = distinct decision-log hash; non-trivial = >15 steps")
+
+
+def w4_progress(r, st):
+    return r.get("steps", 0) > 15
+
+
+W4Q_COMPONENTS = {"real": ["queue.Tagged (Push/Pop, groups, tags, delayGroup, allocation)"], "simulated": ["clock", "interleaving of the two caller tasks"],
+                  "scripted": ["callers (pusher, popper); files are in-memory descriptors"]}
+W4L_COMPONENTS = {"real": ["log.FileIO, rollingFile (rotation, day files, search, Parse) on the real file system"],
+                  "simulated": ["clock (day and month roll-overs)", "interleaving of caller tasks and of the logger goroutine at file rotation"],
+                  "scripted": ["callers"]}
+
 RULE_ENUM = ("each run index draws a scenario, executes it once without the fault to count the positions it exercises, then re-executes it once per position: %s. "
              "evaluations = executions; distinct = distinct decision-log hash; non-trivial = >20 steps and at least one delivery")
 
@@ -70,5 +90,7 @@ PROPS = {
     "C09": mk("exploration", RULE_W2, (2400, 45), (60000, 900), nontrivial=w2_progress, components=W2_COMPONENTS),
     "C14": mk("exploration", RULE_W2, (1600, 50), (40000, 900), nontrivial=w2_progress, components=W2_COMPONENTS),
     "C15": mk("exploration", RULE_W2, (1600, 50), (40000, 900), nontrivial=w2_progress, components=W2_COMPONENTS),
+    "C12": mk("exploration", RULE_W4Q, (6000, 40), (200000, 600), nontrivial=w4_progress, components=W4Q_COMPONENTS),
+    "C18": mk("exploration", RULE_W4L, (6000, 40), (150000, 600), nontrivial=w4_progress, components=W4L_COMPONENTS),
     "C16": mk("fault_enumeration", RULE_ENUM % "stop request (graceful and immediate) issued at the k-th externally visible sender action, plus the one-shot stop right after start", (48, 50), (1200, 1200)),
 }
